@@ -75,7 +75,10 @@ Parts(e, c) == [d \in 1..Len(W.docs) |-> ElemParts(e, W.docs[d].av, W.cfgs[c])]
 Emit ==
   /\ Len(stk) = 1
   /\ PrintT("CASE " \o ToJson([e |-> Top.ref, x |-> [c \in 1..Len(W.cfgs) |-> Row(Top.full, c)],
-                               p |-> IF Top.full.t = "coll" /\ W.parts THEN [c \in 1..Len(W.cfgs) |-> Parts(Top.full, c)] ELSE <<>>]))
+                               p |-> IF Top.full.t = "coll" /\ W.parts THEN [c \in 1..Len(W.cfgs) |-> Parts(Top.full, c)] ELSE <<>>,
+                               k |-> IF Top.full.t \in {"match", "coll"} /\ W.classes
+                                     THEN [c \in 1..Len(W.cfgs) |-> [d \in 1..Len(W.docs) |-> SelClass(Top.full, W.docs[d].av, W.cfgs[c])]]
+                                     ELSE <<>>]))
   /\ UNCHANGED vars
 
 Next ==
